@@ -66,3 +66,73 @@ CANARIES = [
     dict(name="prefixes tried outermost-first", file=F, function=F + ":Condition._with_rescoped_keys_",
          find="                back_path = path[: len(path) - i]\n", replace="                back_path = path[:i]\n"),
 ]
+
+
+# ---- ClassicallyControlledOperation._with_rescoped_keys_: the sub-operation is rescoped too ------------------------------------
+from pyvc.interp import SRec
+from pyvc.sym import SObj
+
+FO = "cirq-core/cirq/ops/classically_controlled_operation.py"
+OpS2, CondS2 = sym.sort("ScOp"), sym.sort("ScCond")
+RESC_OP = z3.Function("rescoped_operation", OpS2, OpS2)       # with_rescoped_keys(op, path, bindable_keys) for the fixed path / keys of the call
+RESC_COND = z3.Function("rescoped_condition", CondS2, CondS2)
+_BUILT = {}
+
+
+def _m_rescope(interp, args, kwargs):
+    x = args[0]
+    if isinstance(x, SObj) and x.sortname == "ScOp":
+        return SObj(RESC_OP(x.e), "ScOp")
+    if isinstance(x, SObj) and x.sortname == "ScCond":
+        return SObj(RESC_COND(x.e), "ScCond")
+    return NotImplemented
+
+
+def _wcc(op):
+    def with_classical_controls(*conds):
+        _BUILT["result"] = (op, tuple(conds))
+        return ("CONTROLLED", op, tuple(conds))
+    with_classical_controls._pyvc_native_ok = True
+    return with_classical_controls
+
+
+SObj.ATTRS["ScOp"] = {"with_classical_controls": _wcc}
+
+
+def _cco(k):
+    def mk(name):
+        import cirq
+
+        sub = sym.fresh_obj("ScOp", "sub")
+        conds = tuple(sym.fresh_obj("ScCond", f"c{i}") for i in range(k))
+        _BUILT.clear()
+        _BUILT.update(sub=sub, conds=conds)
+        return SRec(cirq.ClassicallyControlledOperation, {"_sub_operation": sub, "_conditions": conds})
+    return mk
+
+
+def rescoped_all(result):
+    """result is `rescoped(sub).with_classical_controls(*rescoped conditions)` (in order)"""
+    if not (isinstance(result, tuple) and len(result) == 3 and result[0] == "CONTROLLED"):
+        return False
+    _, op, conds = result
+    sub, cs = _BUILT["sub"], _BUILT["conds"]
+    t = [op.e == RESC_OP(sub.e)] + [c.e == RESC_COND(o.e) for c, o in zip(conds, cs)]
+    return wrap(z3.And(*t)) if len(conds) == len(cs) else False
+
+
+rescoped_all._pyvc_native_ok = True
+
+Contract(
+    FO + ":ClassicallyControlledOperation._with_rescoped_keys_", "C12",
+    cases=[Case(f"{k} condition(s)", {"self": _cco(k), "path": ("const", ("scope",)), "bindable_keys": ("const", frozenset())}) for k in (1, 2)],
+    ensures=["rescoped_all(result)"],
+    env={"rescoped_all": rescoped_all},
+    models={("cirq.protocols.measurement_key_protocol", "with_rescoped_keys"): _m_rescope},
+    notes="the sub-operation (it may be a sub-circuit with conditions of its own) and every condition are rescoped with the same path and keys, and recombined in order",
+)
+
+CANARIES = CANARIES + [
+    dict(name="controlled operation does not rescope its sub-operation", file=FO, function=FO + ":ClassicallyControlledOperation._with_rescoped_keys_",
+         find="        sub_operation = protocols.with_rescoped_keys(self._sub_operation, path, bindable_keys)\n", replace="        sub_operation = self._sub_operation\n"),
+]
